@@ -136,7 +136,7 @@ fn finish(m: &Merged, tier: Tier) -> Finish {
     let kinds_hit = ALL_KINDS.iter().filter(|k| m.c(&format!("kind:{k}")) > 0).count();
     let (cells_hit, cells_total) = cell_floor(m);
     let mut f = Finish {
-        rule: "cases = depth-1 product of every Expr variant over a 190-value boundary pool (exhaustive) + depth-2 arithmetic/date chains over boundary values (exhaustive) + seeded random typed compositions + texts printed by the harness and parsed by Expr::parse; a case is non-trivial when the reference evaluator predicts an error (type, range, division, cast) or the result is a non-finite float; distinct by hash of (tree, input)".into(),
+        rule: "cases = depth-1 product of every Expr variant over a 190-value boundary pool (exhaustive) + depth-2 arithmetic/date chains over boundary values (exhaustive) + random (non-pool) operands for every operator + string families (all pairs over a two-letter alphabet through contains, every character below U+0250 and every Unicode space through trim / uppercase / lowercase, numeric- and date-looking strings with padding, signs, long digit runs and disturbed fields through the casts) + seeded random typed compositions + texts printed by the harness and parsed by Expr::parse; a case is non-trivial when the reference evaluator predicts an error (type, range, division, cast) or the result is a non-finite float; distinct by hash of (tree, input)".into(),
         exhaustive: false,
         exhaustive_part: "depth-1 product (all 47 node kinds x pool, binary operators x pool^2) and the depth-2 boundary chains are enumerated completely and do not depend on the seed".into(),
         ..Default::default()
